@@ -113,8 +113,14 @@ func (s *sliceMachine) Done(procs int, err error) {
 	s.donec <- machineDone{s, procs, err}
 }
 
-// Assign assigns the provided task to this machine. If the machine
-// fails, its assigned tasks are marked LOST.
+// Assign assigns the provided task, which has completed successfully on
+// this machine, to the machine, and marks it TaskOk. If the machine fails,
+// its assigned tasks are marked LOST; if it has failed already, the task is
+// marked LOST here.
+//
+// The task becomes TaskOk while s.mu is held, together with its assignment:
+// a task that is TaskOk can be discarded (see Discard), and a Discard that
+// found the task not yet assigned would leave it TaskRunning for good.
 func (s *sliceMachine) Assign(task *Task) {
 	s.mu.Lock()
 	defer s.mu.Unlock()
@@ -123,6 +129,7 @@ func (s *sliceMachine) Assign(task *Task) {
 		task.Set(TaskLost)
 	} else {
 		s.tasks[task] = struct{}{}
+		task.Set(TaskOk)
 	}
 }
 
